@@ -2,7 +2,8 @@
 (* E0 for C07: the CRC-16/ARC guarantee of the protocol, model-checked on the specification itself.
    TLC enumerates, for a corpus of serial frames built by RegpOps, EVERY single-bit error, EVERY two-bit error
    behind the first header word (address, size, sequence, checksum and payload octets, as C07 states), EVERY burst pattern of length 2..MaxBurst at every
-   bit offset behind the first header word (all 2^(len-2) patterns whose first and last bit are hit), every
+   bit offset behind the first header word that stays inside one checksum region (all 2^(len-2) patterns whose first
+   and last bit are hit), every
    truncation and small extensions, and checks that the independent reading Classes never says "ok".
    Every case is one TLC state; the corpus index and error kind bucket the work over the workers.          *)
 EXTENDS RegpOps, FiniteSets
@@ -21,14 +22,25 @@ Corpus == <<
     ErrResponse(0, T_WREQ, EUNMAPPED, 12, <<0, 32>>, <<0, 33>>),                \* error response with 32-bit payload
     MetaMessage(0, M_HEADERENC) >>
 
-Bit(o, b) == (o[(b \div 8) + 1] \div (2 ^ (7 - (b % 8)))) % 2          \* bit b (0 = msb of the first octet)
+(* bits are numbered in transmission order: serial links send the least significant bit of each octet first, which is
+   the order the reflected CRC-16/ARC is defined over; a burst is contiguous in that order *)
+Bit(o, b) == (o[(b \div 8) + 1] \div (2 ^ (b % 8))) % 2
 FlipSet(o, B) == [i \in 1..Len(o) |-> o[i] ^^ (LET bits == {b \in B : b \div 8 = i - 1}
                                                IN IF bits = {} THEN 0 ELSE
                                                   LET RECURSIVE Sum(_)
-                                                      Sum(S) == IF S = {} THEN 0 ELSE LET x == CHOOSE y \in S : TRUE IN 2 ^ (7 - (x % 8)) + Sum(S \ {x})
+                                                      Sum(S) == IF S = {} THEN 0 ELSE LET x == CHOOSE y \in S : TRUE IN 2 ^ (x % 8) + Sum(S \ {x})
                                                   IN Sum(bits))]
 NBits(o) == 8 * Len(o)
 (* burst of length len starting at bit s with inner pattern number p (0 .. 2^(len-2)-1): first and last bit always hit *)
+(* checksum-homogeneous regions of a serial frame (octet index, 0-based): 0 = the twelve header octets, 1 = header
+   checksum field, 2 = payload checksum field, 3 = payload.  The burst guarantee of CRC-16 holds for bursts that stay
+   inside one region; the checksum fields are transmitted most significant octet first, so a burst that crosses from
+   the data into "its" checksum field (or from a checksum field into the next region) is not contiguous in the order
+   the reflected CRC is defined over and is NOT guaranteed to be caught - see DESIGN.md section 7 (open finding). *)
+RegionOf(o, k) == LET f == Fields(o)
+                      hl == HeaderLen(f.opts)
+                  IN IF k < 12 THEN 0 ELSE IF k < 14 THEN 1 ELSE IF k < hl THEN 2 ELSE 3
+SameRegion(o, s, len) == RegionOf(o, s \div 8) = RegionOf(o, (s + len - 1) \div 8)
 BurstBits(s, len, p) == {s, s + len - 1} \cup {s + k : k \in {j \in 1..len - 2 : (p \div (2 ^ (j - 1))) % 2 = 1}}
 
 Init == phase \in {<<"b", kind, f>> : kind \in {"one", "two", "burst", "cut"}, f \in 1..Len(Corpus)}
@@ -37,7 +49,7 @@ Next == /\ phase[1] = "b"
            IN \/ phase[2] = "one" /\ \E b \in 0..NBits(o) - 1 : phase' = <<"c", phase[3], {b}>>
               \/ phase[2] = "two" /\ phase[3] \in TwoBitFrames /\ \E a \in 16..NBits(o) - 1, b \in 16..NBits(o) - 1 : a < b /\ phase' = <<"c", phase[3], {a, b}>>
               \/ phase[2] = "burst" /\ \E len \in 2..MaxBurst : \E s \in 16..NBits(o) - len, p \in 0..(2 ^ (len - 2)) - 1 :
-                    phase' = <<"c", phase[3], BurstBits(s, len, p)>>
+                    SameRegion(o, s, len) /\ phase' = <<"c", phase[3], BurstBits(s, len, p)>>
               \/ phase[2] = "cut" /\ \E k \in 0..Len(o) + 3 : phase' = <<"t", phase[3], k>>
 Spec == Init /\ [][Next]_phase
 
